@@ -55,8 +55,7 @@ def _shared():
         for h in c07.HDR:
             if not h["name"].endswith("_lax"):
                 h = dict(h)
-                if h["name"] == "c07_hdr_macsec_vlan":
-                    h["tier"] = "quick"  # C04's quick tier has room for it (C07's is at the time limit)
+                # thorough only: the strict struct harnesses peak close to the 20 GB cap (registered with 36 GB)
                 out.append(h)
         return out
     except Exception:
